@@ -17,6 +17,19 @@ from .ode import ODE
 reserved_names = {name for name in dir(sp) if not name.startswith("_")}
 
 
+class SymPyExpressionWriter(myokit.formats.sympy.SymPyExpressionWriter):
+    """Expression writer where variables are real symbols, as all other symbols
+    in gotranx (otherwise sympy turns e.g. abs(exp(x)) into exp(re(x)))"""
+
+    def _ex_name(self, e):
+        return sp.Symbol(
+            self._flhs(e), real=True, imaginary=False, commutative=True, finite=True
+        )
+
+    def _ex_derivative(self, e):
+        return self._ex_name(e)
+
+
 @overload
 def extract_unit(unit: str) -> str: ...
 
@@ -122,7 +135,18 @@ def myokit_to_gotran(model: myokit.Model, protocol=None) -> ODE:
 
     model.create_unique_names()
 
-    all_subs, component_subs = extract_nested_variables(model)
+    # Let myokit write every reference to a variable (at any nesting level) directly
+    # with the unique name that is used for the corresponding gotran atom
+    def lhs_name(lhs: myokit.LhsExpression) -> str:
+        name = lhs.var().uname()
+        if name in reserved_names:
+            name = f"{name}_"
+        if isinstance(lhs, myokit.Derivative):
+            return f"d{name}_dt"
+        return name
+
+    writer = SymPyExpressionWriter()
+    writer.set_lhs_function(lhs_name)
 
     initial_values = model.initial_values()
     components = []
@@ -150,10 +174,7 @@ def myokit_to_gotran(model: myokit.Model, protocol=None) -> ODE:
                 )
                 states.append(state)
                 with sp.core.parameters.evaluate(False):
-                    expr = myokit.formats.sympy.write(var.eq().rhs)
-                    expr = expr.xreplace({v.name(): v.uname() for v in var.variables(deep=True)})
-                    expr = expr.xreplace(component_subs.get(component.name(), {}))
-                    expr = expr.xreplace(all_subs)
+                    expr = writer.ex(var.eq().rhs)
 
                 state_der = atoms.StateDerivative(
                     name=f"d{name}_dt",
@@ -168,7 +189,7 @@ def myokit_to_gotran(model: myokit.Model, protocol=None) -> ODE:
 
             else:
                 with sp.core.parameters.evaluate(False):
-                    expr = myokit.formats.sympy.write(var.rhs())
+                    expr = writer.ex(var.rhs())
                 if expr.is_Number:
                     parameter = atoms.Parameter(
                         name=name,
@@ -180,13 +201,6 @@ def myokit_to_gotran(model: myokit.Model, protocol=None) -> ODE:
                     parameters.append(parameter)
 
                 else:
-                    with sp.core.parameters.evaluate(False):
-                        expr = expr.xreplace(
-                            {v.name(): v.uname() for v in var.variables(deep=True)}
-                        )
-                        expr = expr.xreplace(component_subs.get(component.name(), {}))
-                        expr = expr.xreplace(all_subs)
-
                     intermediate = atoms.Intermediate(
                         name=name,
                         expr=expr,
